@@ -7,6 +7,12 @@
 //   tag <np> <pos..> <ne> <ext..> <nu> <units..>                     (ne = 0: no extent)
 //   ref <aid> | feat <aid> <tagged|untagged|indexed>                 (attached to the tag AND the multi-tag of the case)
 //   mtag <rank> <shape..> <n> <posdata..> <ne> <extdata..> <nu> <units..>   (ne = 0: no extents array)
+//   dimunit <aid> <d>                                util::getDimensionUnit(array.getDimension(d+1))
+//   indata <aid> <np> <pos..> <nc> <count..>         util::positionInData, util::positionAndExtentInData called directly
+//   pti1 <aid> <d> <p> <unit> <L|LE|GE|G|EQ>         util::positionToIndex(double, string, PositionMatch, const Dimension &)
+//   ptiv <aid> <d> <incl|excl> <ns> s.. <ne> e.. <nu> u..   util::positionToIndex(starts, ends, units, RangeMatch, const Dimension &)
+//   wtagged <refidx> <mode> | mwtagged1 <refidx> <mode> <idx>   the region WRITTEN through the DataView, read back from the array
+//   dimension token FC <nrows> <unit|-> : data-frame dimension WITH column index 0 whose column carries that unit
 //   offcnt <aid> <mode> | tagged <refidx> <mode> | taggeda <aid> <mode> | feature <k> <mode>
 //   moffcnt <aid> <mode> <n> <idx..> | moffcnt1 <aid> <mode> <idx>
 //   mtagged <refidx> <mode> <n> <idx..> | mtagged1 <refidx> <mode> <idx>
@@ -34,6 +40,13 @@ namespace nix { namespace util {
 // defined in src/util/dataAccess.cpp; the header declares it under the misspelt name getOffestAndCount
 void getOffsetAndCount(const MultiTag &tag, const DataArray &array, const std::vector<ndsize_t> &indices,
                        std::vector<NDSize> &offsets, std::vector<NDSize> &counts, RangeMatch match);
+// the generic-Dimension dispatchers retrieval uses: exported symbols of the library that no header declares
+boost::optional<ndsize_t> positionToIndex(double position, const std::string &unit, const PositionMatch match, const Dimension &dimension);
+std::vector<boost::optional<std::pair<ndsize_t, ndsize_t>>> positionToIndex(const std::vector<double> &start_positions,
+                                                                             const std::vector<double> &end_positions,
+                                                                             const std::vector<std::string> &units,
+                                                                             const RangeMatch range_matching,
+                                                                             const Dimension &dimension);
 } }
 
 namespace retr {
@@ -148,6 +161,13 @@ static void make_array(const std::vector<std::string> &t) {
             fr.rows(dec_u64(t.at(p + 1)));
             a.appendDataFrameDimension(fr);
             p += 2;
+        } else if (k == "FC") {
+            boost::optional<std::string> u = unit_opt(t.at(p + 2));
+            std::vector<nix::Column> cols = {{"c", u ? *u : std::string(""), nix::DataType::Double}};
+            nix::DataFrame fr = block.createDataFrame(fresh("f"), "t", cols);
+            fr.rows(dec_u64(t.at(p + 1)));
+            a.appendDataFrameDimension(fr, 0u);
+            p += 3;
         } else {
             throw std::logic_error("bad dimension kind " + k);
         }
@@ -380,6 +400,76 @@ static std::string handle(const std::vector<std::string> &t) {
         if (the_tag) the_tag.createFeature(a, lt);
         if (the_mtag) the_mtag.createFeature(a, lt);
         return "done";
+    }
+    // ---- functions of dataAccess.hpp called directly
+    if (c == "dimunit") {
+        nix::Dimension d = arr(t[1]).getDimension(static_cast<nix::ndsize_t>(dec_u64(t[2]) + 1));
+        return enc_str(nix::util::getDimensionUnit(d));
+    }
+    if (c == "indata") {
+        size_t p = 2;
+        size_t np = static_cast<size_t>(dec_int(t.at(p++)));
+        nix::NDSize pos(np);
+        for (size_t i = 0; i < np; i++) pos[i] = dec_u64(t.at(p++));
+        size_t nc = static_cast<size_t>(dec_int(t.at(p++)));
+        nix::NDSize cnt(nc);
+        for (size_t i = 0; i < nc; i++) cnt[i] = dec_u64(t.at(p++));
+        nix::DataArray a = arr(t[1]);
+        return std::string(nix::util::positionInData(a, pos) ? "1" : "0") + " " + (nix::util::positionAndExtentInData(a, pos, cnt) ? "1" : "0");
+    }
+    if (c == "pti1") {
+        nix::Dimension d = arr(t[1]).getDimension(static_cast<nix::ndsize_t>(dec_u64(t[2]) + 1));
+        const std::string &r = t[5];
+        nix::PositionMatch pm = r == "L" ? nix::PositionMatch::Less : r == "LE" ? nix::PositionMatch::LessOrEqual :
+                                r == "GE" ? nix::PositionMatch::GreaterOrEqual : r == "G" ? nix::PositionMatch::Greater : nix::PositionMatch::Equal;
+        if (r != "L" && r != "LE" && r != "GE" && r != "G" && r != "EQ") throw std::logic_error("bad rule");
+        boost::optional<nix::ndsize_t> o = nix::util::positionToIndex(dec_dbl(t[3]), dec_str(t[4]), pm, d);
+        return o ? enc_u64(*o) : std::string("none");
+    }
+    if (c == "ptiv") {
+        nix::Dimension d = arr(t[1]).getDimension(static_cast<nix::ndsize_t>(dec_u64(t[2]) + 1));
+        size_t p = 4;
+        std::vector<double> ss = dbls(t, p), es = dbls(t, p);
+        std::vector<std::string> us = strs(t, p);
+        auto rs = nix::util::positionToIndex(ss, es, us, rmode(t[3]), d);
+        std::string out = std::to_string(rs.size());
+        for (auto &x : rs) out += x ? " [" + enc_u64(x->first) + " " + enc_u64(x->second) + "]" : std::string(" [none]");
+        return out;
+    }
+    if (c == "wtagged" || c == "mwtagged1") {
+        // write through the retrieved view, read the ARRAY back: the elements that changed, in the order of the view
+        size_t r = static_cast<size_t>(dec_u64(t[1]));
+        nix::DataArray a = arr(ref_aids.at(r));
+        if (alias_of_ref(r)) throw std::logic_error("no write route on alias arrays");
+        nix::DataView v = c == "wtagged"
+            ? WITH_MODE(t[2], nix::util::taggedData(the_tag, static_cast<nix::ndsize_t>(r)), nix::util::taggedData(the_tag, static_cast<nix::ndsize_t>(r), rmode(t[2])))
+            : WITH_MODE(t[2], nix::util::taggedData(the_mtag, dec_u64(t[3]), static_cast<nix::ndsize_t>(r)), nix::util::taggedData(the_mtag, dec_u64(t[3]), static_cast<nix::ndsize_t>(r), rmode(t[2])));
+        nix::NDSize cnt = v.dataExtent();
+        size_t n = 1;
+        for (size_t i = 0; i < cnt.size(); i++) n *= static_cast<size_t>(cnt[i]);
+        nix::NDSize shape = a.dataExtent();
+        size_t total = 1;
+        for (size_t i = 0; i < shape.size(); i++) total *= static_cast<size_t>(shape[i]);
+        const double MARK = 1.0e6;
+        std::vector<double> w(n > 0 ? n : 1);
+        for (size_t i = 0; i < n; i++) w[i] = MARK + static_cast<double>(i);
+        if (n > 0) v.setData(nix::DataType::Double, w.data(), cnt, nix::NDSize(cnt.size(), 0));
+        std::vector<double> all(total > 0 ? total : 1);
+        if (total > 0) a.getData(nix::DataType::Double, all.data(), shape, nix::NDSize(shape.size(), 0));
+        std::vector<long long> ids(n, -1);
+        bool clean = true;
+        for (size_t k = 0; k < total; k++) {
+            if (all[k] >= MARK) {
+                size_t j = static_cast<size_t>(all[k] - MARK);
+                if (j < n && ids[j] < 0) ids[j] = static_cast<long long>(k); else clean = false;
+            } else if (all[k] != static_cast<double>(k)) clean = false;
+        }
+        // restore the array (its own flat index)
+        for (size_t k = 0; k < total; k++) all[k] = static_cast<double>(k);
+        if (total > 0) a.setData(nix::DataType::Double, all.data(), shape, nix::NDSize(shape.size(), 0));
+        std::string out = nds(cnt) + " [";
+        for (size_t j = 0; j < n; j++) { if (j) out += " "; out += ids[j] >= 0 ? enc_u64(static_cast<unsigned long long>(ids[j])) : std::string("?"); }
+        return out + (clean ? "]" : "] DIRTY");
     }
     // ---- Tag
     if (c == "offcnt") {
